@@ -76,7 +76,8 @@ pub fn rand_project(r: &mut Rng, round_trip_safe: bool) -> Project {
         match r.below(10) {
             0 if !round_trip_safe => words.push((String::new(), String::new())),
             1 if !round_trip_safe => words.push((String::new(), "a comment-only line".into())),
-            2 => words.push((rand_word(r, &WordCfg::default()), if round_trip_safe { String::new() } else { "gloss: 'water'".into() })),
+            2 => words.push((rand_word(r, &WordCfg::default()), if round_trip_safe { String::new() } else { ["gloss: 'water'", "see note #2", "# doubled marker", "a > e ;; not a rule", "x # y # z"][r.below(5)].into() })),
+            3 if !round_trip_safe => words.push((String::new(), "## section heading ##".into())),
             _ => words.push((rand_word(r, &WordCfg::default()), String::new())),
         }
     }
